@@ -305,7 +305,11 @@ Qed.
 
 Theorem load_okb_spec root o : load_okb root o = true <-> load_ok root o.
 Proof.
-  destruct o; cbn [load_okb load_ok]; try tauto.
+  destruct o; cbn [load_okb load_ok]; try tauto; [|split; [discriminate | intros []]].
+  rewrite andb_true_iff.
+  assert (U : (match unexpected with [] => true | _ => false end) = true <-> unexpected = []).
+  { destruct unexpected; split; intro H; try discriminate; reflexivity. }
+  rewrite U. apply and_iff_compat_l.
   destruct result as [l|e].
   - rewrite andb_true_iff. split.
     + intros [Hf Hs]. split.
